@@ -252,7 +252,15 @@ def main():
         if os.path.exists(rp):
             results.append(json.load(open(rp)))
         else:
-            results.append({"idx": sc["idx"], "name": sc["name"], "node_failure": "scenario child ended with wait status %d" % st})
+            if os.WIFSIGNALED(st):
+                why = "killed by signal %d" % os.WTERMSIG(st)
+            elif os.WEXITSTATUS(st) == 1:
+                why = "timeout (no result within %d s)" % job.get("timeout", 120)
+            elif os.WEXITSTATUS(st) == 3:
+                why = "harness exception in the scenario runner (see node.log)"
+            else:
+                why = "exit status %d without a result" % os.WEXITSTATUS(st)
+            results.append({"idx": sc["idx"], "name": sc["name"], "node_failure": why})
     with open(os.path.join(node_dir, "results.json"), "w") as f:
         json.dump({"census": census, "results": results, "hashseed": os.environ.get("PYTHONHASHSEED")}, f)
 
